@@ -422,6 +422,54 @@ def bbox_rule(repo, rep):
         rep.fail("R-C09-2", io.file, io.node.lineno, io.qualname, f"separating tests found: {sorted(good)}", "is_overlap must return False exactly when the rectangles are separated along freq or along dir")
 
 
+def stats_dispatch(repo, rep, rule):
+    """SpecArray.stats(limits): every statistic requested with band limits is a statistic of self.split(the same four limits) - one split
+    with all four limits forwarded to their own parameters, and each statistic looked up on that split spectrum."""
+    st = repo.func("wavespectra.specarray.SpecArray.stats")
+    from ..astutil import bound_args
+    names = ["dmax", "dmin", "fmax", "fmin"]
+    calls = [c for c in ast.walk(st.node) if isinstance(c, ast.Call) and call_name(c) in ("self.split", "self._obj.spec.split")]
+    ok = False
+    holder = None
+    if len(calls) == 1:
+        kws = {k_: unparse(v_) for k_, v_ in (bound_args(repo, st, calls[0]) or {}).items()}
+        ok = all(kws.get(x) == x for x in names)
+        p = getattr(calls[0], "_parent", None)
+        while p is not None and not isinstance(p, ast.stmt):
+            p = getattr(p, "_parent", None)
+        if isinstance(p, ast.Assign) and isinstance(p.targets[0], ast.Name):
+            holder = p.targets[0].id
+        # the guard that decides whether to split mentions all four limits (a limit left out of the test is ignored when given alone)
+        g = getattr(p, "_parent", None) if p is not None else None
+        while g is not None and not isinstance(g, ast.If):
+            g = getattr(g, "_parent", None)
+        if g is not None:
+            tested = {x.id for x in ast.walk(g.test) if isinstance(x, ast.Name)}
+            if not set(names) <= tested:
+                ok = False
+    if ok:
+        rep.ok(rule, f"{st.file}:{calls[0].lineno} stats", "limits -> self.split(fmin, fmax, dmin, dmax)", "statistics with limits are statistics of the explicitly split spectrum")
+    else:
+        rep.fail(rule, st.file, calls[0].lineno if calls else st.node.lineno, st.qualname, "stats(fmin..dmax)",
+                 "statistics called with limits must be computed on ONE self.split(...) that receives all four limits (a second split applied to the "
+                 "unsplit spectrum drops the first band; a limit filtered out before the call is ignored)")
+    # each statistic is looked up on the split spectrum
+    look = [c for c in ast.walk(st.node) if isinstance(c, ast.Call) and call_name(c) == "getattr" and len(c.args) >= 2]
+    if not look:
+        raise AnalysisError("stats: getattr(<spectrum>.spec, name) lookup not found")
+    for c in look:
+        root = c.args[0]
+        while isinstance(root, (ast.Attribute, ast.Subscript, ast.Call)):
+            root = root.func if isinstance(root, ast.Call) else root.value
+        rn = root.id if isinstance(root, ast.Name) else None
+        if holder is not None and rn == holder:
+            rep.ok(rule, f"{st.file}:{c.lineno} stats", unparse(c)[:70], f"statistic taken from '{holder}', the split spectrum")
+        else:
+            rep.fail(rule, st.file, c.lineno, st.qualname, unparse(c)[:90],
+                     f"the statistic is looked up on '{rn}', not on the spectrum returned by split(): with band limits given, peak period / direction "
+                     "and every integrated parameter are those of the FULL spectrum")
+
+
 def split_rule(repo, rep):
     from ..astutil import returns, resolve, terms, factors
     fi = repo.func("wavespectra.specarray.SpecArray._interp_freq")
@@ -536,23 +584,13 @@ def split_rule(repo, rep):
         rep.ok("R-C09-4", f"{sp.file} split", "sel(freq=slice(fmin, fmax)); interpolated bins prepended at fmin / appended at fmax", "band kept unchanged, cutoffs inserted on the right side")
     else:
         rep.fail("R-C09-4", sp.file, sp.node.lineno, sp.qualname, f"band slicing (insert positions {sides})", "the band must be a label slice with the interpolated fmin bin in front and the fmax bin behind")
-    st = repo.func("wavespectra.specarray.SpecArray.stats")
-    ok = False
-    for n in ast.walk(st.node):
-        if isinstance(n, ast.If) and isinstance(n.test, ast.Call) and call_name(n.test) == "any":
-            names = sorted(x.id for x in ast.walk(n.test) if isinstance(x, ast.Name) and x.id != "any")
-            calls = [c for c in ast.walk(n) if isinstance(c, ast.Call) and call_name(c) == "self.split"]
-            if names == ["dmax", "dmin", "fmax", "fmin"] and calls and n.body and any(c in list(ast.walk(n.body[0])) for c in calls):
-                from ..astutil import bound_args
-                kws = {k_: unparse(v_) for k_, v_ in (bound_args(repo, st, calls[0]) or {}).items()}
-                ok = all(kws.get(x) == x for x in names)
-    if ok:
-        rep.ok("R-C09-4", f"{st.file} stats", "limits -> self.split(...)", "statistics with limits are statistics of the explicitly split spectrum")
-    else:
-        rep.fail("R-C09-4", st.file, st.node.lineno, st.qualname, "stats(fmin..dmax)", "statistics called with limits must be computed on self.split(same limits)")
+    stats_dispatch(repo, rep, "R-C09-4")
 
 
 def run(repo, rep, tier):
+    rep.rule("R-C09-7", "(shared with C01) the wave-age split compares the wind with the celerity AT THE GIVEN DEPTH: the wavenumber polynomial behind it sums every coefficient with its own power")
+    from .shared import wavenumber_polynomial
+    wavenumber_polynomial(repo, rep, "R-C09-7")
     rep.rule("R-C09-6", "every parameter of the functions behind this property is read (rule-based splits): none is accepted and then ignored, and no control parameter (cutoff, limit, tolerance, window, count, switch) is replaced by another value before use (coercion and default filling aside)")
     from .shared import unused_parameters
     unused_parameters(repo, rep, "R-C09-6", ("wavespectra.partition.partition.Partition", "wavespectra.specarray.SpecArray.split", "wavespectra.specarray.SpecArray.stats", "wavespectra.core.utils.waveage", "wavespectra.core.utils.is_overlap"), "rule-based splits")
